@@ -28,8 +28,9 @@ import (
 // detEntry is one committed log entry: a timestamp and one or more redis commands
 // (several commands in one entry share the entry's timestamp, as a proposal batch does).
 type detEntry struct {
-	Ts   int64
-	Cmds [][]string
+	Ts     int64
+	Cmds   [][]string
+	Syncer bool // the entry came from the cross-cluster log syncer (ReqSourceType FromClusterSyncer)
 }
 
 type detSM struct {
@@ -200,6 +201,12 @@ func (d *detSM) applyGroup(entries []detEntry, from, to int, replaying bool) (ou
 		var rl node.BatchInternalRaftRequest
 		rl.ReqNum = int32(len(e.Cmds))
 		rl.Timestamp = e.Ts
+		if e.Syncer {
+			rl.Type = node.FromClusterSyncer
+			rl.OrigTerm = 3
+			rl.OrigIndex = uint64(i + 1)
+			rl.OrigCluster = "source-cluster"
+		}
 		for ci, c := range e.Cmds {
 			d.nextID++
 			id := d.nextID
@@ -286,7 +293,10 @@ func detErr(err error) string {
 // read commands call).  Reads evaluate expiry against the wall clock, so callers use it only
 // when every expiry instant of the log is far from now.
 func (d *detSM) logicalDump(keys detKeys) map[string]string {
-	s := d.store()
+	return d.logicalDumpStore(d.store(), keys)
+}
+
+func (d *detSM) logicalDumpStore(s *node.KVStore, keys detKeys) map[string]string {
 	out := map[string]string{}
 	for _, k := range keys.KV {
 		v, err := s.KVGet([]byte(k))
